@@ -510,7 +510,7 @@ PLANS = {
     "C07": [M(["dropspin", "notime", "nest"], 7, 40, seed_off=8), S(["refs", "idle", "lifecycle"], 18000, 150000, mode="diff"), S(["refs", "idle"], 9000, 60000, build="none", seed_off=1000)],
     "C08": [S(["idle", "kill", "traffic"], 18000, 150000), S(["idle", "kill"], 9000, 60000, build="none", seed_off=1000)],
     "C09": [M(["blocking", "lastslot"], 9, 50, seed_off=17), P("default"), P("set", 5, reps=(25, 150)), P("set", 1, reps=(25, 150)), P("set", 2, reps=(25, 150)), P("set", 7, reps=(25, 150)), P("set", 11, reps=(25, 150)), P("set", 13, reps=(25, 150)), P("set", 17, reps=(25, 150)), P("set", 19, reps=(25, 150)), P("set", 23, reps=(25, 150)), P("set", 29, reps=(25, 150)), P("spawn-then-set", 3), P("set-cross", 3), P("set-cross", 40), P("set-seq", 32, m=4), P("set-seq", 32, m=32), P("set-seq", 6, m=6), P("set-seq", 6, m=32), P("set-seq", 1, m=64), P("zero"), S(["backpressure", "traffic"], 24000, 200000), S(["backpressure"], 12000, 80000, build="none", seed_off=1000)],
-    "C10": [LAWS, M(["blocking"], 8, 60), M(["starve"], 3, 30, seed_off=3), M(["hogged", "lastslot"], 8, 50, seed_off=13), S(["timeouts", "kill"], 24000, 200000, mode="diff"), S(["timeouts"], 12000, 80000, build="none", seed_off=1000)],
+    "C10": [LAWS, M(["blocking"], 8, 60), M(["starve"], 3, 30, seed_off=3), M(["hogged", "lastslot", "hookblocking"], 11, 60, seed_off=13), S(["timeouts", "kill"], 24000, 200000, mode="diff"), S(["timeouts"], 12000, 80000, build="none", seed_off=1000)],
     "C11": [MIRI, M(["spawnstorm", "abort"], 7, 60), M(["readers", "nest"], 6, 50, seed_off=9), S(["refs", "lifecycle", "traffic"], 18000, 150000, mode="diff"), S(["refs", "kill"], 9000, 60000, build="none", seed_off=1000)],
     "C12": [MIRI, S(["faults"], 30000, 250000), S(["deadlock"], 15000, 100000), S(["faults"], 12000, 80000, build="none", seed_off=1000)],
     "C13": [MIRI, M(["general", "blocking", "deathrace"], 9, 90), M(["reentrant", "dropsend", "nest"], 6, 30, seed_off=21), S(["traffic", "timeouts", "kill", "faults", "lifecycle"], 12000, 100000, mode="diff"), S(["timeouts", "kill"], 9000, 60000, build="none", seed_off=1000)],
